@@ -314,4 +314,45 @@ class RemoveServiceInterface(Contract):
     }
 
 
-CONTRACTS += [RemoveChildInterface, Unpeer, RemoveServiceInterface]
+class DisconnectSameNamed(Contract):
+    """one node, two cards, a sub-interface called vl100 on a port of each, both connected to one service (their service ports
+    get the same derived name): disconnecting ONE of them through the service handle removes one service port, and the
+    handle lists what a freshly looked-up handle lists"""
+    target = 'fim.user.network_service:NetworkService.disconnect_interface'
+    props = ('C08',)
+    bounded = topo.BOUND
+    summaries = topo.SUMMARIES
+    max_paths = 2000
+    cost = 30
+
+    def inputs(self, g):
+        return [g.atom('site1'), g.pick(['first', 'second'], 'which of the two is disconnected'),
+                g.pick(['shared store', 'one graph per store'], 'in-memory back end')], {}
+
+    def body(self, h, site1, which, backend):
+        topo.fresh_world(h)
+        if backend == 'shared store':
+            t = h.call(ExperimentTopology)
+        else:
+            t = h.call(ExperimentTopology, importer=h.call(NetworkXGraphImporterDisjoint))
+        n1 = h.call(h.getattr(t, 'add_node'), name='n1', site=site1)
+        subs = []
+        for cname, vlan in (('nic1', '100'), ('nic2', '100')):
+            c = h.call(h.getattr(n1, 'add_component'), name=cname, model_type=CMT('SmartNIC_ConnectX_6'))
+            port = topo.iface(h, c, cname + '-p1')
+            h.call(h.getattr(port, 'add_child_interface'), name='vl100', labels=h.call(Labels, vlan=vlan))
+            subs.append(topo.iface(h, port, 'vl100'))
+        ns = h.call(h.getattr(t, 'add_network_service'), name='br1', nstype=ServiceType.L2STS,
+                    interfaces=PList(subs) if h.mode == 'sym' else subs)
+        before = iface_names(h, ns)
+        h.call(h.getattr(ns, 'disconnect_interface'), subs[0 if which == 'first' else 1])
+        fresh = h.call(h.getattr(h.getattr(t, 'network_services'), '__getitem__'), 'br1')
+        return (len(before), iface_names(h, ns), iface_names(h, fresh))
+
+    ensures = {
+        'one_port_goes_and_the_handle_reports_fresh_interfaces': lambda pre, post: returned(post) and post.result[0] == 2
+        and len(post.result[2]) == 1 and post.result[1] == post.result[2],
+    }
+
+
+CONTRACTS += [RemoveChildInterface, Unpeer, RemoveServiceInterface, DisconnectSameNamed]
